@@ -205,6 +205,17 @@ def r2(db, rep, slots):
             rel = [bb for bb, tt in f.calls() if cn(tt) in TRUNC]
             rel += [bb for bb, tt in f.calls() if cn(tt) == "mem::swap" and any("vm::Stack" in f.locals[l] for l in
                     [op_local(a) for a in tt["args"]] if l is not None)]
+            # `if let Some(frame) = pop_frame() { truncate_to_frame(&frame) }`: on the None edge no frame was removed
+            if len(t["dest"]) == 1:
+                T, _, _ = taint(f, t["dest"][0])
+                for sb in f.reachable():
+                    st = f.blocks[sb]["t"]
+                    if st["t"] != "switch":
+                        continue
+                    l = op_local(st["o"])
+                    dd = f.single_def(l) if l is not None else None
+                    if dd and dd[1] != "t" and dd[2].get("k") == "discr" and len(dd[2]["p"]) == 1 and dd[2]["p"][0] in T:
+                        rel.append(st["tgts"][st["vals"].index("0")] if "0" in st["vals"] else st["tgts"][-1])
             must_release(f, rep, "R2", key, b, rel, "the frame removed by Vm::pop_frame",
                          "followed by Stack::truncate_to_frame(&frame) (its stack slots stay on the value stack: "
                          "2 + argc + register_count values leak per occurrence)")
@@ -254,6 +265,8 @@ def r4(db, rep):
         last = max(pushes, key=lambda b: f._rpo().index(b))
         rel = [b for b, t in f.calls() if cn(t) in RUNS + ("Stack::pop", "Stack::truncate", "Stack::truncate_to_frame",
                                                           "Stack::calling_convention_pop_arguments", "Vec::truncate")]
+        # cleanup attached to the error edge: `.inspect_err(|_| stack.truncate(..))?`
+        rel += closure_calls(_DB, f, ("Stack::truncate", "Stack::truncate_to_frame"))
         must_release(f, rep, "R4", f"{pn}:pushed-arguments", last, rel,
                      "the this/function/arguments pushed for the callee",
                      "consumed (run / pop) or removed when [[Call]]/[[Construct]] fails early (limit check, "
